@@ -42,6 +42,15 @@ Section P.
     intros x Hx. destruct (N.eqb_spec x n); [contradiction|]. split; reflexivity.
   Qed.
 
+  Lemma attempt_served s n s1 x id : attempt s n = (s1, HServed x id) ->
+    x = n /\ hconn V s1 n = Some (id, true) /\ hdb V s1 = hdb V s.
+  Proof.
+    unfold Heal.attempt. destruct (hconn V s n) as [[i [|]]|] eqn:E.
+    - intros H. inversion H; subst. auto.
+    - discriminate.
+    - destruct (reach V s n); [|discriminate]. intros H. inversion H; subst. cbn [Heal.set_conn hconn hdb]. rewrite N.eqb_refl. auto.
+  Qed.
+
   Lemma attempt_inv s n : HI s -> HI (fst (attempt s n)).
   Proof.
     intros I. pose proof (attempt_spec s n) as A. destruct (hconn V s n) as [[id [|]]|] eqn:E; try (rewrite A; exact I).
@@ -159,9 +168,51 @@ Section P.
   Qed.
 
   (* ---------- every reachable state ---------- *)
+  Lemma req_inv s sb : HI s -> HI (fst (do_req s sb)).
+  Proof.
+    intros I. unfold Heal.do_req. set (sl := slot (sk sb)). set (m := tbl V s sl).
+    pose proof (attempt_inv s m I) as I1. destruct (attempt s m) as [s1 [x id1|x|x]] eqn:A; cbn [fst] in *.
+    + destruct (hown V s1 sl =? m).
+      * unfold Heal.exec_db. destruct (exec_sub V sem (hdb V s1) sb). cbn [fst]. exact I1.
+      * pose proof (attempt_inv s1 (hown V s1 sl) I1) as I2. destruct (attempt s1 (hown V s1 sl)) as [s2 [y id2|y|y]]; cbn [fst] in *.
+        -- unfold Heal.exec_db. destruct (exec_sub V sem (hdb V s2) sb). cbn [fst]. unfold Heal.refresh. destruct (can_refresh V hosts _); exact I2.
+        -- unfold Heal.refresh. destruct (can_refresh V hosts _); exact I2.
+        -- unfold Heal.refresh. destruct (can_refresh V hosts _); exact I2.
+    + exact I1.
+    + unfold Heal.refresh. destruct (can_refresh V hosts _); exact I1.
+  Qed.
+
+  Lemma kill_inv s n : HI s -> HI (kill_conn V s n).
+  Proof.
+    intros I. unfold Heal.kill_conn. destruct (hconn V s n) as [[id a]|] eqn:E; [|exact I].
+    intros x i b Hc. cbn [Heal.set_conn hconn nextid reach] in *. destruct (N.eqb_spec x n) as [->|Hx].
+    + inversion Hc; subst. split; [exact (proj1 (I n i a E)) | discriminate].
+    + exact (I x i b Hc).
+  Qed.
+
+  (* a served request: the data is the single execution's, and it arrived on the live connection of the node named *)
+  Lemma served_conn s sb s' r n id red : HI s -> do_req s sb = (s', ROk r n id red) ->
+    hdb V s' = fst (exec_sub V sem (hdb V s) sb) /\ hconn V s' n = Some (id, true).
+  Proof.
+    intros I. unfold Heal.do_req. set (sl := slot (sk sb)). set (m := tbl V s sl).
+    pose proof (attempt_served s m) as A1.
+    destruct (attempt s m) as [s1 [x id1|x|x]] eqn:A; [|discriminate | intros H; destruct (can_refresh V hosts s1); discriminate].
+    destruct (A1 s1 x id1 eq_refl) as [Ex [Ec Ed]]. subst x.
+    destruct (hown V s1 sl =? m) eqn:Eo.
+    - unfold Heal.exec_db. destruct (exec_sub V sem (hdb V s1) sb) as [d r0] eqn:Ee. intros H. inversion H; subst. cbn [hdb hconn].
+      rewrite Ed in Ee. rewrite Ee. split; [reflexivity | exact Ec].
+    - pose proof (attempt_served s1 (hown V s1 sl)) as A2.
+      destruct (attempt s1 (hown V s1 sl)) as [s2 [y id2|y|y]] eqn:B; [| intros H; unfold Heal.refresh in H; destruct (can_refresh V hosts s2); discriminate
+                                                                        | intros H; unfold Heal.refresh in H; destruct (can_refresh V hosts s2); discriminate].
+      destruct (A2 s2 y id2 eq_refl) as [Ey [Fc Fd]]. subst y.
+      unfold Heal.exec_db. destruct (exec_sub V sem (hdb V s2) sb) as [d r0] eqn:Ee. intros H.
+      unfold Heal.refresh in H. rewrite Fd, Ed in Ee.
+      destruct (can_refresh V hosts _); inversion H; subst; cbn [hdb hconn]; rewrite Ee; (split; [reflexivity | exact Fc]).
+  Qed.
+
   Lemma hop_inv s o : HI s -> HI (fst (do_hop s o)).
   Proof.
-    intros I. destruct o as [sb|n|n|n|lo hi n|]; cbn [Heal.do_hop].
+    intros I. destruct o as [sb|n|n|n|lo hi n| |sb]; cbn [Heal.do_hop].
     - (* request *)
       unfold Heal.do_req. set (sl := slot (sk sb)). set (m := tbl V s sl).
       pose proof (attempt_inv s m I) as I1. destruct (attempt s m) as [s1 [x id1|x|x]] eqn:A; cbn [fst] in *.
@@ -191,6 +242,27 @@ Section P.
     - (* wait *)
       cbn [fst]. intros x i b Hc. cbn [hconn nextid reach] in *. destruct (hconn V s x) as [[i0 [|]]|] eqn:E; try discriminate.
       inversion Hc; subst. exact (I x i true E).
+    - (* a request whose reply is lost *)
+      pose proof (req_inv s sb I) as I1. destruct (do_req s sb) as [s1 [r n id red|out]]; cbn [fst] in *; [|exact I1].
+      apply kill_inv. exact I1.
+  Qed.
+
+  (* ---------- a reply lost after execution ---------- *)
+  (* the client is told an error, never a result; the data is what exactly one execution leaves (the command is not
+     sent again, its effect is not undone); the connection is gone, so the next request dials a new one *)
+  Theorem lost_reply s sb : HI s ->
+    let '(s1, out) := do_hop s (HReqLost sb) in
+    (exists o, out = Some (RErr o)) /\ hdb V s1 = hdb V (fst (do_req s sb)) /\
+    (forall r n id red, snd (do_req s sb) = ROk r n id red ->
+       hdb V s1 = fst (exec_sub V sem (hdb V s) sb) /\ exists id', hconn V s1 n = Some (id', false)).
+  Proof.
+    intros I. cbn [Heal.do_hop]. destruct (do_req s sb) as [s' [r n id red|o]] eqn:E; cbn [fst snd].
+    - split; [eexists; reflexivity|]. split; [unfold Heal.kill_conn; destruct (hconn V s' n) as [[i a]|]; reflexivity|].
+      intros r0 n0 id0 red0 H. inversion H; subst r0 n0 id0 red0.
+      destruct (served_conn s sb s' r n id red I E) as [D C]. split.
+      + unfold Heal.kill_conn. destruct (hconn V s' n) as [[i a]|]; cbn [Heal.set_conn hdb]; exact D.
+      + unfold Heal.kill_conn. rewrite C. cbn [Heal.set_conn hconn]. rewrite N.eqb_refl. eexists; reflexivity.
+    - split; [eexists; reflexivity|]. split; [reflexivity|]. intros r n id red H. discriminate.
   Qed.
 
   Lemma hinit_inv layout : HI (hinit V layout).
